@@ -28,7 +28,7 @@ def run_one(m):
     name, fname, old, new, flt, prop = m
     d = tempfile.mkdtemp(prefix='serif_mut_')
     try:
-        shutil.copytree('/repo/src', os.path.join(d, 'src'))
+        shutil.copytree(os.environ.get('SERIF_SRC', '/repo/src'), os.path.join(d, 'src'))
         p = os.path.join(d, 'src', 'serif', fname)
         s = open(p).read()
         if name != '__clean__':
